@@ -556,6 +556,10 @@ void NiHeader::UpdateHeaderStrings(const bool hasUnknown) {
 	if (version.File() < V20_1_0_1)
 		return;
 
+	// No block list is attached to the header of an empty (cleared or never loaded) file
+	if (!blocks)
+		return;
+
 	for (auto& b : (*blocks)) {
 		std::vector<NiStringRef*> stringRefs;
 		b->GetStringRefs(stringRefs);
